@@ -9,6 +9,13 @@
  *   fetch t=<sec> req=<REQ>
  *   flush                    ares_qcache_flush()
  *   servers <A|B|C>          ares_set_servers_csv() with one of three fixed lists
+ *   set api=<csv|pcsv|nodes|pnodes> list=<item,item,..|->
+ *                            ares_set_servers_csv / ares_set_servers_ports_csv (items as written, e.g.
+ *                            10.0.0.1, [fd00::1], 10.0.0.1:5353) / ares_set_servers (items = addresses)
+ *                            / ares_set_servers_ports (items = addr/udp/tcp)
+ *                            prints "X rc=<n> srv=<addr/udp/tcp/idx,..>" (channel->servers in list order)
+ * head keys: max=<max_ttl> udp=<channel udp port> tcp=<channel tcp port> primary=<0|1>
+ * first output line of a case: "<k> R init srv=..."
  *   reinit                   ares_reinit() + join of the reinit thread
  *   REQ = <opcode>/<flags>/<qtype>:<qclass>:<name>[+<qtype>:<qclass>:<name>]   flags: letters r(d) c(d) a(d) -
  *         name "@" = empty string, names may end in '.'
@@ -184,6 +191,60 @@ static void print_hit(const ares_dns_record_t *resp)
   ares_dns_record_destroy(copy);
 }
 
+static void dump_servers(ares_channel_t *channel)
+{
+  ares_slist_node_t *node;
+  int                first = 1;
+  printf("srv=");
+  for (node = ares_slist_node_first(channel->servers); node != NULL; node = ares_slist_node_next(node)) {
+    const ares_server_t *sv = ares_slist_node_val(node);
+    char                 a[INET6_ADDRSTRLEN];
+    ares_inet_ntop(sv->addr.family, &sv->addr.addr, a, sizeof a);
+    printf("%s%s/%u/%u/%zu", first ? "" : ",", a, (unsigned)sv->udp_port, (unsigned)sv->tcp_port, sv->idx);
+    first = 0;
+  }
+  if (first) printf("-");
+}
+
+static int set_nodes(ares_channel_t *channel, char *list, int with_ports)
+{
+  struct ares_addr_node      an[16];
+  struct ares_addr_port_node pn[16];
+  int                        n = 0, rc;
+  char                      *save = NULL, *it;
+  memset(an, 0, sizeof an);
+  memset(pn, 0, sizeof pn);
+  if (strcmp(list, "-") != 0) {
+    for (it = strtok_r(list, ",", &save); it && n < 16; it = strtok_r(NULL, ",", &save)) {
+      int   udp = 0, tcp = 0;
+      char *sl = strchr(it, '/');
+      if (sl) {
+        *sl = 0;
+        sscanf(sl + 1, "%d/%d", &udp, &tcp);
+      }
+      if (strchr(it, ':')) {
+        an[n].family = pn[n].family = AF_INET6;
+        if (ares_inet_pton(AF_INET6, it, &an[n].addr.addr6) != 1) return -1;
+        memcpy(&pn[n].addr.addr6, &an[n].addr.addr6, sizeof pn[n].addr.addr6);
+      } else {
+        an[n].family = pn[n].family = AF_INET;
+        if (ares_inet_pton(AF_INET, it, &an[n].addr.addr4) != 1) return -1;
+        memcpy(&pn[n].addr.addr4, &an[n].addr.addr4, sizeof pn[n].addr.addr4);
+      }
+      pn[n].udp_port = udp;
+      pn[n].tcp_port = tcp;
+      if (n > 0) {
+        an[n - 1].next = &an[n];
+        pn[n - 1].next = &pn[n];
+      }
+      n++;
+    }
+  }
+  if (with_ports) rc = ares_set_servers_ports(channel, n ? pn : NULL);
+  else rc = ares_set_servers(channel, n ? an : NULL);
+  return rc;
+}
+
 static void run_case(long k, char *line)
 {
   ares_channel_t     *channel = NULL;
@@ -204,7 +265,13 @@ static void run_case(long k, char *line)
   opts.lookups        = (char *)"b";
   opts.flags          = ARES_FLAG_NOSEARCH | ARES_FLAG_NOALIASES;
   optmask             = ARES_OPT_QUERY_CACHE | ARES_OPT_SERVERS | ARES_OPT_LOOKUPS | ARES_OPT_FLAGS;
+  if (field(line, "primary", b1, sizeof b1) && atoi(b1)) opts.flags |= ARES_FLAG_PRIMARY;
+  if (field(line, "udp", b1, sizeof b1) && atoi(b1)) { opts.udp_port = (unsigned short)atoi(b1); optmask |= ARES_OPT_UDP_PORT; }
+  if (field(line, "tcp", b1, sizeof b1) && atoi(b1)) { opts.tcp_port = (unsigned short)atoi(b1); optmask |= ARES_OPT_TCP_PORT; }
   if (ares_init_options(&channel, &opts, optmask) != ARES_SUCCESS) { printf("%ld R INITFAIL\n", k); return; }
+  printf("%ld R init ", k);
+  dump_servers(channel);
+  printf("\n");
 
   for (step = strtok_r(bar + 1, ";", &save); step; step = strtok_r(NULL, ";", &save), stepno++) {
     char           b2[1024], b3[64], b4[64], b5[64], b6[2048];
@@ -257,6 +324,16 @@ static void run_case(long k, char *line)
       cur    = step[8] - 'A';
       (void)cur;
       printf("%ld R %d X%s\n", k, stepno, st == ARES_SUCCESS ? "" : "fail");
+    } else if (strncmp(step, "set ", 4) == 0) {
+      int rc = -99;
+      if (!field(step, "api", b1, sizeof b1) || !field(step, "list", b6, sizeof b6)) { printf("%ld R %d BADOP\n", k, stepno); continue; }
+      if (strcmp(b1, "csv") == 0) rc = ares_set_servers_csv(channel, strcmp(b6, "-") ? b6 : "");
+      else if (strcmp(b1, "pcsv") == 0) rc = ares_set_servers_ports_csv(channel, strcmp(b6, "-") ? b6 : "");
+      else if (strcmp(b1, "nodes") == 0) rc = set_nodes(channel, b6, 0);
+      else if (strcmp(b1, "pnodes") == 0) rc = set_nodes(channel, b6, 1);
+      printf("%ld R %d X rc=%d ", k, stepno, rc);
+      dump_servers(channel);
+      printf("\n");
     } else if (strcmp(step, "reinit") == 0) {
       int st = ares_reinit(channel);
       if (channel->reinit_thread != NULL) {
